@@ -8,8 +8,8 @@ CHECKS = {
    text='Bounded stand-in for a whole-history property: 2000 (quick) / 50000 (thorough) seeded histories of up to 50 API calls (dis, both renderings, asm, asm_att, lift, expr_simp, get_r/get_w, eval_expr on five machines, eval_instr, calls that raise) over shared objects, each history in a process forked from one pristine parent; every argument must be structurally unchanged after every call, the probe call repeated after every step must return an equal result, and must return the same on fresh structurally equal objects; shared decode tables are digested before/after; the assembler must give identical results with an empty, warm, stale (4 grammar variants with the same rule names) and garbage parser-table cache directory. Static: 102 of 122 store sites of the IR layer are discharged syntactically (target allocated in the same call).',
    note='Not a proof: history independence has no contract-shaped statement without ghost state. A failing repetition is attributed to the memo flag that explains it (is_eval / simp on a node of the probe argument), so that the known finding (flag on shared register objects) does not hide a new leak on another node class.',
    ref='5 C12'),
- 'C02': dict(cat='other', tech='bounded run-time contract on x86_mn.asm / asm_att ("every candidate decodes, with its full length, to exactly the requested instruction") over generated abstract instructions; reference = independent IA-32 spec decoder specs/x86dec.py; immediate and displacement boundary values',
-   text='Bounded, structurally complete over the operand-shape space: one abstract instruction per (mnemonic, operand kinds/sizes, register class, prefix set, addressing shape) from the spec decoding of the enumerated decoder trie (~3.5k quick / all register numbers and SIB bytes thorough), each rendered in Intel and AT&T syntax with the boundary immediates (-129..2^32-1) and displacements (-129..128); every returned candidate is decoded by the spec decoder and compared structurally (mnemonic class, operands modulo width, prefixes). Not a proof: the assembler search (asm_candidates, 400 lines of table matching) is outside the VC generator.',
+ 'C02': dict(cat='other', tech='bounded run-time contract on x86_mn.asm / asm_att ("every candidate decodes, with its full length, to exactly the requested instruction") over generated abstract instructions; reference = independent IA-32 spec decoder specs/x86dec.py; immediate and displacement boundary values; the immediate-fitting helper check_imm_size (+ imm_to_generic) verified from its AST by VC generation (pyvc, z3; callee contracts of C14) for all immediates',
+   text='Bounded, structurally complete over the operand-shape space: one abstract instruction per (mnemonic, operand kinds/sizes, register class, prefix set, addressing shape) from the spec decoding of the enumerated decoder trie (~3.5k quick / all register numbers and SIB bytes thorough), each rendered in Intel and AT&T syntax with the boundary immediates (-129..2^32-1) and displacements (-129..128); every returned candidate is decoded by the spec decoder and compared structurally (mnemonic class, operands modulo width, prefixes). Proved (359 obligations): check_imm_size returns None or a field whose zero-/sign-extension is congruent to the immediate modulo the width the form stands for - a value that does not fit excludes the form. Not a proof of the whole: the assembler search (asm_candidates, 400 lines of table matching) is outside the VC generator.',
    note='Trusted: specs/x86dec.py, the printer bounded/asmgen.py (forms it cannot print unambiguously are skipped: 16-bit addressing, relative/far operands, x87 in AT&T, string ops in AT&T). MMX/SSE not generated.',
    ref='5 C02'),
  'C03': dict(cat='other', tech='bounded run-time contract on the composition dis . asm and asm . str . dis over generated instructions; canonical byte strings supplied by the real GNU assembler (as --32, executed as an external function)',
@@ -20,8 +20,8 @@ CHECKS = {
    text='Bounded over the same corpus as C03 (canonical encodings incl. boundary variants): Intel and AT&T renderings fed back to asm / asm_att; renderings without relative/far/absolute operands are assembled by GNU as in the matching mode and the output decoded by specs/x86dec.py must denote the same instruction. ~230k obligations quick.',
    note='Trusted: GNU as, specs/x86dec.py. The "objdump" immediate-format variants are not exercised. MMX/SSE not generated.',
    ref='5 C09'),
- 'C19': dict(cat='other', tech='bounded metamorphic run-time contract on asm / asm_att: set equality of candidates across generated presentation-only rewrites of each accepted line (no oracle beyond the rewrite rules)',
-   text='Bounded: for every generated accepted Intel line, 14 rewrites (upper-case registers incl. segment and ST(i), lower-case size keywords, spacing, tabs, hexadecimal 0x/0X immediates and displacements, signed/unsigned immediates at the operand width, index-first, displacement-first, displacement outside brackets, displacement split in two constants, scale-first, st vs st(0)) and the AT&T transliterations GNU as accepts (suffix written or implied, AT&T or Intel mnemonic) must give the same candidate set. 51k lines quick, 1.2M thorough.',
+ 'C19': dict(cat='other', tech='bounded metamorphic run-time contract on asm / asm_att: set equality of candidates across generated presentation-only rewrites of each accepted line (no oracle beyond the rewrite rules); the term algebra of the operand parser (dict_add/dict_sub/dict_mul) verified from its AST by VC generation (pyvc, z3) against the linear-form view for all integer coefficients over every key shape',
+   text='Bounded: for every generated accepted Intel line, 14 rewrites (upper-case registers incl. segment and ST(i), lower-case size keywords, spacing, tabs, hexadecimal 0x/0X immediates and displacements, signed/unsigned immediates at the operand width, index-first, displacement-first, displacement outside brackets, displacement split in two constants, scale-first, st vs st(0)) and the AT&T transliterations GNU as accepts (suffix written or implied, AT&T or Intel mnemonic) must give the same candidate set. 51k lines quick, 1.2M thorough. Proved (5807 obligations): dict_add/dict_sub/dict_mul compute the sum/difference/product of the linear forms their operands denote, keep the no-zero-coefficient invariant, for all coefficients (key sets bounded to eax, ebx, imm, one or two symbols).',
    note='Trusted: the rewrite rules in checks/asmfam.py + bounded/asmgen.py. An AT&T line without suffix that miasmX rejects is not counted when the suffixed line is accepted.',
    ref='5 C19'),
  'C14': dict(cat='proof', tech='contract-based deductive verification: VCs generated from the AST of every modint method (pyvc), discharged by z3; bounded native twins as cross-check',
@@ -32,7 +32,7 @@ CHECKS = {
    text='Shape-bounded, valuation-unbounded: for ~70k (quick) / ~300k (thorough) enumerated well-typed trees (every rewrite rule x boundary constants, all depth-1 trees, two-level operator trees, seeded random depth<=4) the real simplifier result is proved equal to the input for all valuations of identifiers and memory, same width, well-typed, argument nodes unmodified (frame), also with shared sub-term objects. Termination is a bounded observation (5 s per tree). _expr_simp/merge_sliceto_slice are not proved inductively.',
    note='Trusted: z3; the IR denotation liftvc/den.py (S-ir) cross-checked by the independent interpreter specs/irsem.py; flat memory. Bounded in tree shape and constants.',
    ref='5 C05'),
- 'C06': dict(cat='other', tech='contract on eval_abs.eval_expr checked per (tree, state): real evaluator on fresh objects, den(result) = den(e) o S proved for ALL valuations of the free symbols by z3 (shape/state-bounded SMT)',
+ 'C06': dict(cat='other', tech='contract on eval_abs.eval_expr checked per (tree, state): real evaluator on fresh objects, den(result) = den(e) o S proved for ALL valuations of the free symbols by z3 (shape/state-bounded SMT); the linear constant evaluators eval_op_plus/mult/minus/and/or/xor/not/eq/inf/mullo/mulhi verified from their AST by VC generation (pyvc, z3; callee contracts of C14) for all operand values',
    text='For ~47k (quick) / ~600k (thorough) enumerated (expression, machine state) pairs - lifter operators incl. n-ary forms, depth-1 trees, rule templates, random trees; states binding each leaf to nothing / constants / a symbol / a compound - the evaluation result is proved equal to the substituted expression for all valuations, same width, and constant when every input is constant. eval_ExprOp/eval_ExprMem are not proved inductively.',
    note='Trusted: z3; IR denotation liftvc/den.py; independent interpreter specs/irsem.py for replays. Memory cells are bound at a free address symbol (overlap is C07). Known finding: named mul/div operators missing from the evaluator.',
    ref='5 C06'),
